@@ -7,7 +7,7 @@ import os
 VERIF = os.path.dirname(os.path.dirname(os.path.abspath(__file__)))
 
 BASE_NOTE = ("Trusted: Coq 8.16.1 kernel (vm_compute for generated cases / Gen/Facts*.v obligations / refutation witnesses; no native_compute), "
-             "the source-fact translator harness/srcfacts.py, the Python correspondence harness, and the oracles listed in DESIGN.md section 5. "
+             "the source-fact translator harness/srcfacts.py, the Python correspondence harness, and the oracles listed in DESIGN.md sections I.4 and I.7. "
              "Every property theorem is 'Closed under the global context' (Print Assumptions output is parsed on every run). ")
 
 CHECKS = {
@@ -26,7 +26,7 @@ CHECKS["C05"] = dict(
     technique="Coq proof (simulation: write-through cache over a dictionary-like store refines the dictionary, for all histories/budgets) + differential execution of real backends against the dictionary spec inside Coq + AST source facts",
     text="Theorem cache_layer_refines_dict (Storage/LayerProofs.v): StorageBackendBase with a MemoryCache of any budget answers every operation of every history exactly as the dictionary keyed by (qualified name, arg hash), "
          "instantiated with the facts extracted from the current source (Gen/Facts*.v); prefix_scope makes f/f1 and #1/#10 safe. The filesystem (shared / separate metadata path, with / without cache) and memory backends are run on generated histories "
-         "and fixed scenarios; every answer, the cache's usage / resident set and store touches are compared with the model by vm_compute.",
+         "and fixed scenarios; every answer, the cache's usage / resident set and store touches are compared with the model by vm_compute. Also: the same bytes memoized again after forget-everything / forget-function.",
     note="The data-source stack below the cache (directory tree emulation of versioned objects, metadata paths) is represented by its dictionary specification in the theorem and tied to the code by differential execution only. "
          "Hypothesis wfop: qualified names contain no '/'. Reads go through a freshly fetched memento, as the runner does.",
     ref="6/C05")
@@ -34,14 +34,14 @@ CHECKS["C07"] = dict(
     technique="Coq proof (invariants of the content-addressed versioned store by induction over histories) + whole-store scan after every operation compared with the model's object table by vm_compute",
     text="Theorems over Storage/VStore.v for every history: bytes under a content key hash to it (digest = arbitrary function, no injectivity assumed), a content key never has two versions, stored objects are never modified or removed "
          "by later memoizes / override-key rewrites / null-with-override / forgets of calls and functions, a memento keeps reading its bytes, forget deletes nothing from the data store. The real filesystem backends are driven with shared override keys "
-         "and repeated contents; after every step all files are re-hashed and the object table is compared with the model.",
+         "and repeated contents; after every step all files are re-hashed and the object table is compared with the model. Also: interrupted blob / link writes followed by a dedup store; partitions with repeated members.",
     note="Fault-free histories (crash points are C08). uuid4 freshness is an oracle (version counter). forget_everything on a shared data/metadata tree removes the data as well (by design of the recursive delete) and is excluded from immutability.",
     ref="6/C07")
 CHECKS["C19"] = dict(
     technique="Coq proof (read-only step never changes the stored dictionary; reads refine the dictionary) + audit-hook / tree-snapshot observation of real read-only, null-storage and null-runner configurations compared with the model",
     text="Theorem readonly_never_writes_and_reads_as_dict (all histories, any cache budget): memoize is skipped, forgets and metadata writes are rejected, reads answer as the dictionary, the stored state is unchanged. "
          "Implementation: pre-populated stores reopened read-only five ways (argument / config / registry, with / without cache) under random histories; every operation's file-system audit events and a full tree re-hash must show no mutation; "
-         "function-level call sequences through read-only, null-storage and null-runner clusters with execution traces.",
+         "function-level call sequences through read-only, null-storage and null-runner clusters with execution traces. Also: separate metadata path, null runner over a populated store whose result data is lost.",
     note="File-system mutation is observed via CPython audit events plus re-hashing the tree; writes bypassing both (e.g. from C extensions) would be missed. force_local() is outside the null-runner claim.",
     ref="6/C19")
 
@@ -59,7 +59,7 @@ CHECKS["C09"] = dict(
     text="Theorems over Runner/Threads.v for every schedule (list of thread ids) of any number of threads calling any keys on a cold or warm store: the body of a key runs at most once at every point, exactly once at the end if it was not memoized, never otherwise; "
          "two threads are never inside the critical section of one key; unless all are done some thread can move (flat calls). With every public MemoryCache method atomic (source fact: they hold the cache lock) the operations of all threads form one sequence and C06's invariant holds after any sequence. "
          "Implementation: real threads stopped at every method call on the cache / metadata source / data source, every function call in runner_local.py and every body start (plus every source line inside MemoryCache in line mode), "
-         "schedules explored systematically by increasing number of preemptions and sampled randomly; per-thread values, escaped exceptions, body counts and cache accounting are checked after every schedule.",
+         "schedules explored systematically by increasing number of preemptions and sampled randomly; per-thread values, escaped exceptions, body counts and cache accounting are checked after every schedule. Also: every line of the per-call lock table function and of the link writer as scheduling points (exhaustive / bounded enumeration).",
     note="Partial for: CPython's own switch points (the scheduler decides interleavings only at the listed points), nested memento calls / lock ordering along the call tree (progress theorem is for flat calls), and the blocked-thread heuristic "
          "(a granted thread that does not reach its next point within 30 ms is treated as waiting for a lock).",
     ref="6/C09")
@@ -69,7 +69,7 @@ CHECKS["C04"] = dict(
     text="Theorems over Codec/Json.v + Codec/ArgHash.v: the normalized JSON of an object does not depend on member order at any depth; two effective-kwargs dictionaries binding equal values to the same names have the same pre-image; "
          "keyword order is irrelevant for every signature / partial application / positional split; the body receives exactly the kwargs the key was computed from; non-empty context args are a member of the hashed dictionary. "
          "The model prints the exact pre-image bytes (Python's ensure_ascii escaping, surrogate pairs, decimal integers); the harness hashes them with hashlib and compares with the implementation for generated bindings in paired presentations, "
-         "and checks hit / miss and minimally different bindings directly.",
+         "and checks hit / miss and minimally different bindings directly. Also: values equal for Python but different once normalized (+-0.0, equal instants with different offsets) incl. on a re-opened store, batch presentations under context arguments, redefinition with reordered parameters.",
     note="Injectivity ('differs whenever a bound value or its type differs') is established for concrete type pairs by computation and checked on generated minimally-different bindings, not proved in general (it is exact only up to SHA-256 collisions and needs "
          "the no-'_mementoType'-key hypothesis); equivalence of positional / partial / keyword presentations beyond keyword order is shown on instances and by the differential check. Float repr and isoformat are oracles.",
     ref="6/C04")
@@ -77,7 +77,7 @@ CHECKS["C11"] = dict(
     technique="Coq proof (decode (encode x) = x by nested structural induction for arguments, function references, references with arguments and mementos; key#version split; emitted documents satisfy the frozen format predicate) + byte-exact differential check of the emitted JSON + implementation round trip",
     text="Theorems over Codec/Wire.v: decode_arg/decode_fnref/decode_memento invert the encoders for every well-formed value of any nesting depth (all 12 components of a memento), the argument hash recomputed from decoded arguments is the original, "
          "key#version splits back at the last '#' (refuted for the first '#'; the source fact says rfind), every emitted memento has exactly the frozen member names in the frozen order and typed {type,value} arguments. "
-         "Implementation: json.dumps(encode_memento(m)) is compared byte for byte with the model's rendering; encode -> dumps -> strict RFC 8259 parse -> decode is compared component-wise.",
+         "Implementation: json.dumps(encode_memento(m)) is compared byte for byte with the model's rendering; encode -> dumps -> strict RFC 8259 parse -> decode is compared component-wise. Also: one effective call recorded in two calling conventions.",
     note="dateutil / isoformat are oracles (isoformat never ends in 'Z'); from_qualified_name is the identity on a reference's parts here (its behaviour is C12). numpy-array and bytes arguments are outside the modelled domain. "
          "Known finding: NaN / Infinity tokens are not RFC 8259 JSON.",
     ref="6/C11")
@@ -87,7 +87,7 @@ CHECKS["C12"] = dict(
     text="Theorems over Codec/QName.v: for any cluster without '#', dotted-identifier module/function names and ANY version string (':' '#' '::' included) the qualified name splits back into exactly its parts; resolving a stored reference against any registry never errors and yields the local function when the version is current, an external reference otherwise; "
          "refutations for the greedy pattern, for prefix-after-version and for the default-cluster assertion; the format is ambiguous without '#'-free clusters. The source's pattern literal, construction order and external stub are extracted every run. "
          "Implementation: parse_qualified_name vs the functional description on all strings up to length 5/6 over {a . : # @}; random admissible quadruples through real decorated functions, a filesystem store and all listing APIs; "
-         "caller/callee evolutions (re-version, remove, rename, re-cluster, body edit, zero-parameter callee) in default and named clusters.",
+         "caller/callee evolutions (re-version, remove, rename, re-cluster, body edit, zero-parameter callee) in default and named clusters. Also: entries read before the callee is edited in the same process; memento functions passed as arguments.",
     note="That Python's re computes what parse_split / parse_greedy say is validated (exhaustively on short strings), not proved. 'Entries stored under it can be found again' is carried by the C05 storage refinement and checked here on the real store.",
     ref="6/C12")
 
@@ -97,25 +97,25 @@ CHECKS["C02"] = dict(
     text="Theorems over Runner/Run.v for every call DAG, every store consistent with it and every context: a memoized call returns exactly what an un-memoized execution returns (values and memoized exceptions), a later call executes no body, consistency is preserved; "
          "with C05's theorem the same holds behind a cache of any size, and forgetting removes exactly that call. Implementation: DAGs on memory / filesystem / filesystem+cache (two sizes) vs the model; generated values over the documented result domain "
          "(incl. bool vs int, date vs timestamp, float32 vs float64, -0.0/NaN, empty containers, non-ASCII, numpy dtypes/shapes, pandas objects, partitions, results larger than the cache) x backends x {normal, ignore_result, force_local}: body counts, equality and type of first and later values, "
-         "recorded result type vs value read back, forget; exception record/replay for rebuildable / non-rebuildable / function-local / nested / not-to-be-memoized classes.",
+         "recorded result type vs value read back, forget; exception record/replay for rebuildable / non-rebuildable / function-local / nested / not-to-be-memoized classes. Also: on-disk partitions, numpy float scalars, pandas Timestamps (result type judged by an independent oracle), results dropped and collected between calls.",
     note=RUN_NOTE + "Pickle / pandas / numpy fidelity is an oracle for the model (modelled, not verified) and is what the value-domain part samples.",
     ref="6/C02")
 CHECKS["C10"] = dict(
     technique="Coq proof (the memento returned by the memoizing evaluator equals a store-independent specification of the call tree, for all programs and all consistent stores; batch = element-wise) + differential runs over subsets of pre-memoized sub-calls + scheduled concurrent scenario",
     text="Theorem provenance_exact: for every call DAG, every consistent store and context, the recorded (or found) memento lists exactly the direct sub-calls in order with their keys and exactly the functions invoked transitively beneath the call, itself included; hence identical whatever was memoized before "
          "(computed, found before the run, found by the batch pre-check, failing), single or batch. Implementation: generated DAGs with repeated / batched / failing sub-calls and context overrides x all (or sampled) subsets of sub-calls memoized beforehand x backends, compared with the model and with the exact tree; "
-         "plus the case 'found inside the per-call mutex' under a deterministic two-thread schedule.",
+         "plus the case 'found inside the per-call mutex' under a deterministic two-thread schedule. Also: sub-calls with date / time arguments (recorded argument hashes, re-read from disk).",
     note=RUN_NOTE + "Resource handles are exercised by C11's generator only, not by this model.",
     ref="6/C10")
 CHECKS["C15"] = dict(
     technique="Coq proof (flipping 'make the sub-calls as one batch' anywhere leaves the whole run result unchanged: outcomes, store, executions, mementos, for all programs and stores) + root-level call_batch / map_over_range vs individual calls on twin stores",
     text="Theorem batch_eq_elementwise (no assumption on the store): bulk pre-check then element-by-element equals one-after-the-other for any mix of memoized, new, duplicated and failing elements; elements are transparent and run at most once. "
-         "Implementation: batch-heavy DAGs vs the model; root-level batches (0-6 elements, duplicates, failures) x pre-memoized subsets x raise_first_exception x context args compared with individual calls on a twin store by position, store state and executions; map_over_range over lists, ranges and one-shot iterables with partial prefixes.",
+         "Implementation: batch-heavy DAGs vs the model; root-level batches (0-6 elements, duplicates, failures) x pre-memoized subsets x raise_first_exception x context args compared with individual calls on a twin store by position, store state and executions; map_over_range over lists, ranges and one-shot iterables with partial prefixes. Also: batches mixing Python-equal values (1 / 1.0 / True), elements whose result cannot be stored.",
     note=RUN_NOTE, ref="6/C15")
 CHECKS["C16"] = dict(
     technique="Coq proof (the effective context is a component of every key; recorded sub-call keys = inherit-or-override of the caller's context, for all programs / stores) + context-heavy DAGs vs the model + direct separation / prevention checks",
     text="Theorems: nested calls are recorded under the caller's effective context unless the edge overrides it (the explicit empty override included), entries stored under one context are invisible under another, calls are transparent and served per context. "
-         "Implementation: DAGs where most edges override the context (incl. on batched edges) under two root contexts on three backends vs the model; results under different contexts must be computed and then served separately; prevented calls must refuse nested calls with RuntimeError whether or not they are memoized.",
+         "Implementation: DAGs where most edges override the context (incl. on batched edges) under two root contexts on three backends vs the model; results under different contexts must be computed and then served separately; prevented calls must refuse nested calls with RuntimeError whether or not they are memoized. Also: prevention on inner edges, None-valued context entries.",
     note=RUN_NOTE + "'Bodies never receive context arguments' is observed (a generated body receiving one would raise TypeError), not modelled; with_prevent_further_calls is checked on the implementation only.",
     ref="6/C16")
 
@@ -123,7 +123,7 @@ CHECKS["C17"] = dict(
     technique="Coq proof (index of a stored merge chain = overlay of the links' own dictionaries, by induction on the chain; own/from-parent flags) + source facts (which index an in-process parent contributes) + differential runs over chains x parent provenances x staging kinds",
     text="Theorems over Storage/Partition.v: a partition reads back with exactly its keys and values; one merge = parent entries marked from_parent overlaid by own keys; for chains of any length, whether each parent was read back from the store or taken from this process, "
          "lookup in the stored index = the overlay of the links (own keys win, parent-only keys remain); refutation when an in-process parent only remembers the keys it wrote itself. Implementation: random chains of length 0-4 with overlapping keys, in-memory / on-disk staging, "
-         "parent provenance {first call in this process, disk, memory cache}; every link read back four ways and compared with the model and the overlay law; parents re-read after their children are stored.",
+         "parent provenance {first call in this process, disk, memory cache}; every link read back four ways and compared with the model and the overlay law; parents re-read after their children are stored. Also: partitions handed on unchanged by another function, default-factory staging dicts, empty middle links.",
     note="Member values are small ints / strings / arrays / None identified by embedded ids; pickle fidelity of members is C02's oracle.",
     ref="6/C17")
 
@@ -131,7 +131,7 @@ CHECKS["C14"] = dict(
     technique="Coq proof (collected rule set = reachability in the reference graph, by soundness of saturation + completeness of a checked fixpoint; transitive / direct sets characterised) + differential runs over reference graphs (exhaustive for small N, random beyond) incl. enforcement of undeclared calls",
     text="Theorems over Version/Rules.v: for every program, once saturation is closed (a boolean evaluated on every case) the collected hash rules are exactly the rules reachable from the function; the reported transitive memento dependencies are exactly the memento functions reachable through memento functions and in-scope plain functions; "
          "the direct ones exactly those named in the body; no rule is collected twice. Implementation: ALL graphs on 1..2 (quick) / 1..3 (thorough) nodes of kinds {auto memento, pinned memento, plain} with every edge set (self loops, cycles), plus random graphs on 3-6 nodes with reference forms {bare, module attribute, alias, decorator-wrapped}; "
-         "transitive / direct sets, function rule keys and dependency-graph edges compared with the model and with plain reachability; hidden dynamic calls outside the closure must raise UndeclaredDependencyError directly and through every modifier clone, also after the target was once legitimately passed as an argument.",
+         "transitive / direct sets, function rule keys and dependency-graph edges compared with the model and with plain reachability; hidden dynamic calls outside the closure must raise UndeclaredDependencyError directly and through every modifier clone, also after the target was once legitimately passed as an argument. Also: references inside the argument of a dereferenced call, explicitly versioned intermediate nodes, __init__-module packages.",
     note="Name resolution is performed by the implementation on live objects; the model receives resolved edges. The enforcement half is decided by the harness (the model fixes which calls are outside the closure).",
     ref="6/C14")
 
@@ -139,7 +139,7 @@ CHECKS["C03"] = dict(
     technique="Coq proof (the digest input = rule contents in canonical key order is invariant under any reordering of reference iteration; keys identify rules) + differential fresh-interpreter runs across PYTHONHASHSEED / import order / definition order / query order, rule set vs model, second process executes no body",
     text="Theorems over Version/Rules.v: two presentations of a program that differ only in the order in which each function's references are iterated feed the same sequence of rule contents to the digest (collect is order-dependent as a list, the sorted list is not); rule sort keys are injective. "
          "Implementation: generated programs (memento / plain functions, variables, undefined names, cycles, aliases, module attributes, int-set and string-set constants, defaults, nested code) are loaded in fresh interpreters under different hash seeds, import orders, definition orders and version-query orders; "
-         "versions, ordered rule lists and per-rule hashes must be identical, the rule set must be the model's, the version must be the digest of rule hashes in key order, and a second process against the same store must execute no body.",
+         "versions, ordered rule lists and per-rule hashes must be identical, the rule set must be the model's, the version must be the digest of rule hashes in key order, and a second process against the same store must execute no body. Also: a second package with an out-of-scope helper, unorderable set globals, object-valued defaults, lambda helpers.",
     note="PYTHONHASHSEED values are sampled. sha256 and the byte-level content of each rule hash are not modelled (contents are abstract numbers); per-rule hashes are compared between processes instead.",
     ref="6/C03")
 
@@ -149,7 +149,7 @@ CHECKS["C01"] = dict(
          "for any version function under which equal versions imply equal behaviour and any history of editions and calls against a persistent store, the memoizing evaluator (look-ups at every memento function, nested results stored) returns exactly what un-memoized evaluation of the current edition returns (invariant over the store); "
          "fixed-width concatenation is injective; refutations: defaults not hashed, variable-width rule hashes. Source facts: defaults hashed, explicit versions hashed to the common width. "
          "Implementation: generated programs x edit histories (bodies, constants incl. swapped constants, defaults, keyword-only defaults, set / string-set / tuple constants, nested code, call edges, variable values, explicit versions) delivered to fresh interpreters against one persistent store and inside one interpreter (reload / exec / setattr); "
-         "every call compared with plain undecorated execution of the current edition (or UndeclaredDependencyError); every pair of editions: implementation's version-changed verdict = model's.",
+         "every call compared with plain undecorated execution of the current edition (or UndeclaredDependencyError); every pair of editions: implementation's version-changed verdict = model's. Also: a second package (helpers of another package's memento function), nested scopes named like globals, builtins shadowed in the running process, object-valued defaults, lambda helpers.",
     note="Body semantics is abstract in the model (any function of code, defaults and referenced values); sha256 truncation is treated as injective; symbols of the model are invocations (programs numbered topologically = recursion terminates). Histories are sampled.",
     ref="6/C01")
 
@@ -158,7 +158,7 @@ CHECKS["C13"] = dict(
     text="Theorems over Version/VCache.v: worlds map names to definitions with fresh stamps per executed definition; if no rule collected in an earlier world observes a change (variable value, identity of a plain / memento function, definedness), the from-scratch version is unchanged (reachability both ways + contents); "
          "for every history of Define / Alias / Query events, each query returns the from-scratch version of the current world (invariant J); refuted when memento-function rules only check 'still a memento function' (alias re-binding). Source facts: identity comparison in did_change; rule-less instances recompute. "
          "Implementation: generated programs x histories of 4-12 in-process events {redefine memento / plain, new default, rebind / mutate variable, define undefined name, memento <-> plain, rebind alias, clone, unregistered wrapper, change-then-clone} with version queries after every event, "
-         "each answer compared with a fresh interpreter's version of the program as it stands; successive from-scratch versions compared with the model's version verdict.",
+         "each answer compared with a fresh interpreter's version of the program as it stands; successive from-scratch versions compared with the model's version verdict. Also: builtin names defined later, definition as None, lists mutated inside tuples, clones made right after a change.",
     note="Not modelled in Coq: the version computed while a function is being decorated, clones / unregistered instances (they share or lack rules), the cluster lock; the harness exercises the first two against the implementation. Rebinding a variable of an unsupported type to a supported one is outside the property (untracked variable).",
     ref="6/C13")
 
@@ -167,7 +167,7 @@ CHECKS["C18"] = dict(
     text="Theorems over Config/Config.v: for every storage kind and option combination, building from a configuration equals building from the same constructor arguments; arguments override the file option by option; building from the dump of any reachable settings gives the settings back; "
          "a name resolves to c iff some repository defines it as c and no earlier one defines it (any list), to nothing iff none does; prepend wins, append loses; an environment rebuilt from its dump resolves every name to an equivalent cluster; refutations when memory_cache_mb is not read or metadata_path not dumped. "
          "Source facts: the option is read, the path is dumped, get_cluster returns at the first match. Implementation: ALL option combinations x {constructor arguments, inline dict, JSON files, YAML with template parameters}, all informative file x argument override pairs, "
-         "to_dict and reconstruction of every backend, behavioural confirmation (where files appear, executions, cache service after removing files) incl. on the environment rebuilt from Environment.to_dict(), repository lists built four ways with look-ups between prepend / append.",
+         "to_dict and reconstruction of every backend, behavioural confirmation (where files appear, executions, cache service after removing files) incl. on the environment rebuilt from Environment.to_dict(), repository lists built four ways with look-ups between prepend / append. Also: special characters in template parameters, cluster keys different from names, fractional cache sizes.",
     note="Paths are compared as given strings; storage kinds are the registered ones (filesystem, memory, null) and runners local / null; plugin backends are out of scope.",
     ref="6/C18")
 
